@@ -480,3 +480,90 @@ class AnyKeyDict(dict):
 
     def _pyvc_getitem(self, it, idx, node, frame):
         return self.value
+
+
+# ------------------------------------------------------------------------------------------------------------------
+# bounded stand-in: random corruptions and truncations of whole images, opened by the real library under CPython
+# ------------------------------------------------------------------------------------------------------------------
+FUZZ_IMAGES = ['plain-small', 'rock-ridge', 'joliet', 'deep-rr', 'rr-112-xa-symlinks', 'udf-basic', 'udf-symlink', 'eltorito']
+
+
+@contract
+class OpenCorruptedImage(Base):
+    """C15 (bounded, run-time contract on the real open_fp): an image written by the library with 1-8 metadata bytes overwritten
+    (or cut short) is either opened or refused with one of the library's exception types, within seconds"""
+    target = 'pycdlib.pycdlib.PyCdlib.open_fp'
+    bounded_only = True
+    tier = 'quick'
+
+    def seeds(self):
+        import os
+        base = int(os.environ.get('VERIF_SEED', '0') or 0) * 100000 if self.tier != 'quick' else 0
+        n = 40 if self.tier == 'quick' else 600
+        return [{'image': im, 'seed': base + k} for im in FUZZ_IMAGES for k in range(n)]
+
+    def setup(self, c):
+        c.a.image = c._get('image', 'plain-small')
+        c.a.seed = c._get('seed', 0)
+        return Call([])
+
+    def real_call(self, c, call):
+        import io
+        import random
+        import signal
+        import pycdlib
+        from contracts import fidelity as F
+        from contracts import scenario as S
+        from contracts import boot as B
+        a = c.a
+        cache = globals().setdefault('_fuzz_cache', {})
+        if a.image not in cache:
+            S.pin_environment(c)
+            if a.image.startswith('udf'):
+                iso, _ = F.build_udf(c, a.image)
+            elif a.image == 'eltorito':
+                iso, _ = B.run_history(c, 'sections')
+            else:
+                iso, _ = F.build(c, a.image)
+            o = io.BytesIO()
+            iso.write_fp(o)
+            cache[a.image] = o.getvalue()
+        base = cache[a.image]
+        rnd = random.Random('%s/%d' % (a.image, a.seed))
+        b = bytearray(base)
+        meta_end = min(len(b), (300 if a.image.startswith('udf') else 48) * 2048)
+        if rnd.random() < 0.1:
+            b = b[:rnd.randrange(0, len(b))]
+        else:
+            for _ in range(rnd.choice([1, 1, 2, 4, 8])):
+                pos = rnd.randrange(16 * 2048, meta_end)
+                b[pos] = rnd.choice([0, 1, 0xff, 0x7f, 0x80, b[pos] ^ (1 << rnd.randrange(8)), rnd.randrange(256)])
+
+        class Timeout(BaseException):
+            pass
+
+        def handler(signum, frame):
+            raise Timeout()
+        old = signal.signal(signal.SIGALRM, handler)
+        signal.alarm(20)
+        try:
+            iso = pycdlib.PyCdlib()
+            iso.open_fp(io.BytesIO(bytes(b)))
+            a.outcome = 'opened'
+        except pycdlib.pycdlibexception.PyCdlibException as e:
+            a.outcome = 'refused:' + type(e).__name__
+        except Timeout:
+            a.outcome = 'TIMEOUT'
+        except BaseException as e:  # noqa
+            a.outcome = 'ESCAPED:' + type(e).__name__ + ': ' + str(e)[:100]
+        finally:
+            signal.alarm(0)
+            signal.signal(signal.SIGALRM, old)
+        return None
+
+    def post(self, c, a, out):
+        return {'opened-or-refused-with-a-library-exception': a.outcome == 'opened' or a.outcome.startswith('refused:'),
+                'terminates-within-20-seconds': a.outcome != 'TIMEOUT'}
+
+    def observe(self, c, a, out):
+        return {'outcome': getattr(a, 'outcome', None)}
